@@ -20,7 +20,7 @@ type vhEntry struct {
 }
 
 func vhName(tag string) string {
-	return zz.OneOf(tag, "hook", "a.yaml", ".hid", "lib", "sub", "b.md", "c.txt", "d.json", "x.sh", "libx", "yaml")
+	return zz.OneOf(tag, "hook", "a.yaml", ".hid", "lib", "sub", "b.md", "c.txt", "d.json", "x.sh", "libx", "yaml", "A.JSON", "README.MD")
 }
 
 func vhMode(tag string) int {
@@ -157,7 +157,7 @@ func VH_C20_nested() {
 	for i := nd - 1; i < nd; i++ {
 		si := strconv.Itoa(i + 1)
 		e := vhEntry{parent: i}
-		e.name = zz.OneOf("fname"+si, "hook", "a.yaml", ".hid.sh", "lib.sh", "x.yaml.sh", "b.md")
+		e.name = zz.OneOf("fname"+si, "hook", "a.yaml", ".hid.sh", "lib.sh", "x.yaml.sh", "b.md", "Notes.Txt", "v.YAML")
 		e.mode = vhMode("fmode" + si)
 		pp := root
 		if i >= 0 {
